@@ -30,7 +30,7 @@ func (g *gen) str() string {
 	if r.Intn(10) == 0 {
 		n = 8 + r.Intn(40)
 	}
-	if r.Intn(60) == 0 {
+	if r.Intn(200) == 0 {
 		n = 200 + r.Intn(120) // around the str8 | str16 boundary (in bytes) of msgpack
 	}
 	var sb strings.Builder
@@ -126,11 +126,14 @@ func (g *gen) sized(tier string) []*gv {
 		return sb.String()
 	}
 	one := &gv{kind: 'I', i: 1}
-	lens := []int{30, 31, 32, 33, 254, 255, 256, 257, 65535, 65536, 65537}
+	lens := []int{30, 31, 32, 33, 254, 255, 256, 257, 65536}
+	if tier == "thorough" {
+		lens = append(lens, 65535, 65537, 70000)
+	}
 	for _, n := range lens {
 		for _, unit := range []string{"a", "é", "日", "😀", "\"", "\n"} {
-			if n > 1000 && unit != "a" && unit != "é" {
-				continue
+			if n > 1000 && unit != "é" && !(tier == "thorough" && unit == "a") {
+				continue // quick tier: the str16 | str32 boundary once, with a two-byte code point
 			}
 			s := mk(n, unit)
 			out = append(out, &gv{kind: 'S', s: s})
@@ -142,11 +145,9 @@ func (g *gen) sized(tier string) []*gv {
 			}
 		}
 	}
-	arrLens := []int{14, 15, 16, 17, 31, 32, 255, 256, 257}
+	arrLens := []int{14, 15, 16, 17, 31, 32, 100} // arrays and maps have no 8-bit length format
 	if tier == "thorough" {
 		arrLens = append(arrLens, 65535, 65536, 65537)
-	} else {
-		arrLens = append(arrLens, 65536)
 	}
 	for _, n := range arrLens {
 		a := &gv{kind: 'A'}
@@ -162,7 +163,11 @@ func (g *gen) sized(tier string) []*gv {
 			out = append(out, &gv{kind: 'H', tn: "hash", keys: []gkey{{false, "a"}}, vals: []*gv{a}})
 		}
 	}
-	for _, n := range []int{12, 13, 14, 15, 16, 17, 18, 33, 254, 255, 256, 300} {
+	hashLens := []int{12, 13, 14, 15, 16, 17, 18, 33, 100}
+	if tier == "thorough" {
+		hashLens = append(hashLens, 254, 255, 256, 300, 1000)
+	}
+	for _, n := range hashLens {
 		for _, tn := range []string{"hash", "ranch"} {
 			h := &gv{kind: 'H', tn: tn}
 			for i := 0; i < n; i++ {
@@ -317,7 +322,7 @@ func (g *gen) value(depth int, _ string) *gv {
 		return g.scalar()
 	case 2, 3, 4:
 		n := r.Intn(4)
-		if r.Intn(15) == 0 {
+		if r.Intn(40) == 0 {
 			n = 13 + r.Intn(6) // around the fixarray | array16 boundary
 		}
 		v := &gv{kind: 'A'}
@@ -342,7 +347,7 @@ func (g *gen) value(depth int, _ string) *gv {
 	if r.Intn(8) == 0 {
 		n = 5 + r.Intn(4)
 	}
-	wide := r.Intn(20) == 0
+	wide := r.Intn(50) == 0
 	if wide {
 		n = 11 + r.Intn(8) // around the fixmap | map16 boundary (fields + Atype + zKeyOrder)
 	}
